@@ -1005,6 +1005,9 @@ def run(cx, rep):
     nonempty_regex_rule(cx, rep, "C04.10")
     # ---------------------------------------------------------------- C04.11
     reference_chase_rule(cx, rep, "C04.11")
+    # ---------------------------------------------------------------- C04.12
+    rep.rule("C04.12", "an entry of the validator table of a discriminated union that lists several variants narrows them to its key (the re-dispatched union is smaller)")
+    importlib.import_module("rules.c02").disc_schema_table_rule(cx, rep, "C04.12", which="validator")
     rep.rule("C04.7", "an Anchor pairs a span with the file the span was read in (syntax and its file travel together)")
     anchor_colocation_rule(cx, rep, "C04.7")
 
